@@ -1329,6 +1329,29 @@ class NestedControl(Base):
               s.o[i * 4 + j] @= 0
 
 
+@design(lambda st, a, b, sel, en, reset: (None, {"r": (a << 8) & M8 | (b >> 7), "t": 1 if 2 < a else 0, "u": (a >> (b & 7)) & M8, "v": ((a + b) & M8) >> 1, "w": (a - b) & M8 if a >= b else (b - a) & M8}))
+class ShiftEdge(Base):
+  """shifts by the full width and by a masked signal, literal on the left of a comparison, subtraction under a guard"""
+  def construct(s):
+    s.ports()
+    s.r = OutPort(Bits8)
+    s.t = OutPort(Bits1)
+    s.u = OutPort(Bits8)
+    s.v = OutPort(Bits8)
+    s.w = OutPort(Bits8)
+
+    @update
+    def up_se():
+      s.r @= (s.a << 8) | (s.b >> 7)
+      s.t @= 2 < s.a
+      s.u @= s.a >> (s.b & 7)
+      s.v @= (s.a + s.b) >> 1
+      if s.a >= s.b:
+        s.w @= s.a - s.b
+      else:
+        s.w @= s.b - s.a
+
+
 def sequences():
   """input sequences (lists of dicts): one long deterministic walk covering every (sel, en) with varied a, b; reset pulses inside"""
   A = (0, 1, 0x5A, 0xFF, 0x80, 0x0F, 0x37)
